@@ -16,6 +16,7 @@ from zope.interface.verify import verifyObject, verifyClass
 from zope.interface.exceptions import (
     BrokenMethodImplementation, BrokenImplementation, DoesNotImplement,
     MultipleInvalid, Invalid)
+from .common import wmod, newworld
 
 
 def sig_src(r, o, va, kw, self=False):
@@ -56,8 +57,9 @@ def binds(f, n, k, bound):
 
 def eval_pair(case):
     (ir, io, iva, ikw), (mr, mo, mva, mkw), kind, big = case
+    newworld()
     I = InterfaceClass('I', (Interface,), {'m': mkfunc(sig_src(ir, io, iva, ikw)),
-                                           '__module__': 'w'})
+                                           '__module__': wmod()})
     if kind == 'func-attr':
         K = implementer(I)(type('K', (), {}))
         cand = K()
@@ -98,12 +100,13 @@ DEFECTS = ['no_at', 'no_bat', 'no_m1', 'bad_m2', 'no_bm', 'undeclared', 'm3_not_
 
 def eval_subset(case):
     flags, tentative, vkind = case
+    newworld()
     flags = set(flags)
     IBase = InterfaceClass('IBase', (Interface,), {
-        'bat': Attribute('the base attr'), 'bm': mkfunc('x', 'bm'), '__module__': 'w'})
+        'bat': Attribute('the base attr'), 'bm': mkfunc('x', 'bm'), '__module__': wmod()})
     I = InterfaceClass('I', (IBase,), {
         'at': Attribute('the attr'), 'm1': mkfunc('', 'm1'), 'm2': mkfunc('a, b', 'm2'),
-        'm3': mkfunc('', 'm3'), '__module__': 'w'})
+        'm3': mkfunc('', 'm3'), '__module__': wmod()})
     ns = {}
     if 'no_m1' not in flags:
         ns['m1'] = mkfunc('self', 'm1')
